@@ -785,6 +785,14 @@ impl SystemHardware {
     }
 }
 
+/// Verification hook: a `SystemHardware` over a caller-built platform (see `crate::verif`).
+#[cfg(folo_verif)]
+impl SystemHardware {
+    pub(crate) fn verif_from_platform(platform: PlatformFacade) -> Self {
+        Self::from_platform(platform)
+    }
+}
+
 // We have no API contract for the Debug output format.
 #[cfg_attr(coverage_nightly, coverage(off))]
 impl fmt::Debug for SystemHardware {
